@@ -317,6 +317,8 @@ def patched(salt=0, sym_int_names=True):
         def __eq__(self, o):
             return self is o
 
+    from vk import modstate
+    modstate.reset_all()     # module-level containers of mosaik as after import: a path never sees what an earlier path left there
     starters = simmanager.StarterCollection()
     saved = {
         'starter': starters['python'],
@@ -350,6 +352,7 @@ STUBS = [
     "simulators are constrained by the documented API contract only: next step > current time, output time >= step time and only for replies that carry non-persistent outputs only, persistent outputs always present",
     "behaviour bound K: a simulator's first K steps have symbolic behaviour; from step K+1 on it goes quiet (no event outputs, no self-schedule before until; time-based simulators return until) - a legal behaviour, so the rest of the run is still monitored; paths needing more than K+8 steps, and with a symbolic until more than K steps, are cut and counted",
     "symbolic values that reach a hash / index / C-level int are concretised by the solver, one feasible value at a time (all values explored)",
+    "module-level dicts / lists / sets of the mosaik modules are restored to their contents after import at the start of every path (vk.modstate): a path is a fresh process as far as module state goes",
 ]
 
 
